@@ -1,5 +1,5 @@
 """C01 — a signature is exactly the set of prefix-anchored k-mers on both strands."""
-from core import hx, nats, hexlist, exc_kind
+from core import hx, nats, hexlist, exc_kind, safe_check
 
 PROPS = ('GambitV.Props.C01', 'GambitV.C01')
 TIE = []
@@ -77,7 +77,7 @@ def run(ctx):
 	amax = ctx.q(9, 11)
 
 	def sub(case, tag):
-		lines, pf = check(ctx, case)
+		lines, pf = safe_check(check, ctx, case)
 		n = case.pop('_n', 0)
 		ctx.submit(case, lines, nontrivial=n > 0, tags=[tag, f'form={case.get("form","bytes")}', f'acc={case.get("acc","default")}',
 		                                                 'sig=empty' if n == 0 else ('sig=1' if n == 1 else 'sig>1')], pyfails=pf)
@@ -158,7 +158,7 @@ def run(ctx):
 		start = rng.randint(0, n + 2)
 		stop = rng.randint(0, n)
 		case = {'k': 1, 'pre': '41', 'seqs': [], 'bfind': [hay.hex(), pat.hex(), start, stop]}
-		lines, pf = check(ctx, case)
+		lines, pf = safe_check(check, ctx, case)
 		ctx.submit(case, lines, nontrivial=False, tags=['bfind'])
 
 
